@@ -229,16 +229,16 @@ skiplist_notify(struct skiplist *l, struct skiplist_node *n,
 
 }
 
+/* Release @node without notifying anybody (@skiplist_node_destroy()
+ * notifies, then calls this); also what the header node, which is not
+ * an entry of the map, is released with.
+ */
 static void
-skiplist_node_destroy(struct skiplist_node *node, struct skiplist *list)
+skiplist_node_free(struct skiplist_node *node, struct skiplist *list)
 {
 	struct qb_list_head *pos;
 	struct qb_list_head *next;
 	struct qb_map_notifier *tn;
-
-	skiplist_notify(list, node,
-			QB_MAP_NOTIFY_DELETED,
-			(char *)node->key, node->value, NULL);
 
 	qb_list_for_each_safe(pos, next, &node->notifier_head) {
 		tn = qb_list_entry(pos, struct qb_map_notifier, list);
@@ -251,6 +251,15 @@ skiplist_node_destroy(struct skiplist_node *node, struct skiplist *list)
 		free(node->forward);
 	}
 	free(node);
+}
+
+static void
+skiplist_node_destroy(struct skiplist_node *node, struct skiplist *list)
+{
+	skiplist_notify(list, node,
+			QB_MAP_NOTIFY_DELETED,
+			(char *)node->key, node->value, NULL);
+	skiplist_node_free(node, list);
 }
 
 static void
@@ -373,7 +382,7 @@ skiplist_destroy(struct qb_map *map)
 		fwd_node = skiplist_node_next(cur_node);
 		skiplist_node_destroy(cur_node, list);
 	}
-	skiplist_node_destroy(list->header, list);
+	skiplist_node_free(list->header, list);
 	free(list);
 }
 
